@@ -1,9 +1,13 @@
 package p_map
 
 import (
+	"fmt"
+	"os"
 	"runtime"
 	"strings"
+	"sync/atomic"
 	"testing"
+	"time"
 
 	"pgregory.net/rapid"
 	"verifharness/internal/vstat"
@@ -14,7 +18,43 @@ const (
 	propC11 = "C11"
 )
 
-func TestMain(m *testing.M) { vstat.Main(m) }
+func TestMain(m *testing.M) {
+	StartWatchdog(hangLimit, onHang)
+	vstat.Main(m)
+}
+
+// what the watchdog needs to know about the running test (written by the test goroutine before its
+// first case, read by the watchdog only once a case has been stuck for seconds)
+var curProp, curTest atomic.Value
+
+func running(prop, test string) { curProp.Store(prop); curTest.Store(test) }
+
+// hangLimit: process CPU time one case may burn. A case costs milliseconds (at most MaxSteps single ops).
+const hangLimit = 5 * time.Second
+
+// exitTB lets vstat.Report do its work (replay file, violation record, stats flush) from the
+// watchdog goroutine and then ends the process: the test goroutine is stuck inside the library.
+type exitTB struct{}
+
+func (exitTB) Logf(format string, args ...any) { fmt.Printf(format+"\n", args...) }
+func (exitTB) Fatalf(format string, args ...any) {
+	fmt.Printf(format+"\n", args...)
+	fmt.Println("FAIL (watchdog: a call of the map did not return)")
+	os.Exit(1)
+}
+
+func onHang(c Case, structural bool, where string, burnt time.Duration) {
+	prop, _ := curProp.Load().(string)
+	test, _ := curTest.Load().(string)
+	v := vstat.V("map:hang", "a call of the map made during %s did not return: the case has burnt %.1fs of CPU time (a case costs milliseconds) - endless loop over a corrupted list", where, burnt.Seconds())
+	if prop == propC10 {
+		vstat.For(prop).Report(exitTB{}, test+"Hang", c, v) // does not return unless it is a known finding
+	}
+	// C11 judges the list invariants only; a hang is a functional failure (C10 runs the same cases)
+	fmt.Printf("watchdog: %s %s: %s\n", prop, test, v.Msg)
+	vstat.Flush()
+	os.Exit(3)
+}
 
 // Every iterable.Map owns a sync.Pool, and the runtime keeps every pool that was used (and through
 // it the whole map) reachable for two garbage collections. With millions of short-lived maps the
@@ -86,6 +126,7 @@ func judge(prop string, v *vstat.Violation) *vstat.Violation {
 }
 
 func exhaustive(t *testing.T, prop, test string, structural bool) {
+	running(prop, test)
 	st := vstat.For(prop)
 	shard, shards := vstat.Shard()
 	var parts []map[string]any
@@ -117,18 +158,25 @@ func TestC11MapExhaustive(t *testing.T) {
 	exhaustive(t, propC11, "TestC11MapExhaustive", true)
 }
 
-// genCase: every random choice is a rapid draw.
+// genCase: every random choice is a rapid draw. The sizes are drawn from fixed ladders (a few keys
+// ... hundreds of keys, one ... two dozen open iterators) and the ops include the bulk ops, so that
+// big fills, drains to a small remainder and many parked iterators are reached by short lists.
 func genCase(t *rapid.T) Case {
-	keys := rapid.IntRange(2, 4).Draw(t, "keys")
-	maxIt := rapid.IntRange(1, vstat.Pick(3, 6)).Draw(t, "maxit")
+	keys := rapid.SampledFrom([]int{2, 3, 4, 8, 32, 100, 300}).Draw(t, "keys")
+	maxIt := rapid.SampledFrom([]int{1, 2, 3, 6, 12, 24}).Draw(t, "maxit")
+	key := rapid.OneOf(rapid.IntRange(0, keys-1), rapid.IntRange(0, min(keys-1, 3)))
+	cnt := func(hi int) *rapid.Generator[int] { // a count in 0..hi: anything, small, or (nearly) everything
+		return rapid.OneOf(rapid.IntRange(0, hi), rapid.IntRange(0, min(hi, 3)), rapid.IntRange(hi-hi/4, hi))
+	}
+	slot := rapid.IntRange(0, maxIt-1)
 	opGen := rapid.Custom(func(t *rapid.T) Op {
-		switch k := rapid.IntRange(0, 25).Draw(t, "kind"); {
+		switch k := rapid.IntRange(0, 35).Draw(t, "kind"); {
 		case k <= 5:
-			return Op{K: OpAdd, Key: rapid.IntRange(0, keys-1).Draw(t, "key"), V: rapid.IntRange(0, 9).Draw(t, "v")}
+			return Op{K: OpAdd, Key: key.Draw(t, "key"), V: rapid.IntRange(0, 9).Draw(t, "v")}
 		case k <= 10:
-			return Op{K: OpRem, Key: rapid.IntRange(0, keys-1).Draw(t, "key")}
+			return Op{K: OpRem, Key: key.Draw(t, "key")}
 		case k <= 11:
-			return Op{K: OpGet, Key: rapid.IntRange(0, keys-1).Draw(t, "key")}
+			return Op{K: OpGet, Key: key.Draw(t, "key")}
 		case k <= 12:
 			return Op{K: OpLen}
 		case k <= 14:
@@ -136,11 +184,23 @@ func genCase(t *rapid.T) Case {
 		case k <= 17:
 			return Op{K: OpIter}
 		case k <= 19:
-			return Op{K: OpHas, I: rapid.IntRange(0, maxIt-1).Draw(t, "i")}
+			return Op{K: OpHas, I: slot.Draw(t, "i")}
 		case k <= 23:
-			return Op{K: OpNext, I: rapid.IntRange(0, maxIt-1).Draw(t, "i")}
+			return Op{K: OpNext, I: slot.Draw(t, "i")}
+		case k <= 25:
+			return Op{K: OpClose, I: slot.Draw(t, "i")}
+		case k <= 27:
+			return Op{K: OpAddRange, Key: key.Draw(t, "key"), N: cnt(keys).Draw(t, "n"), Rev: rapid.Bool().Draw(t, "rev"), V: rapid.IntRange(0, 9).Draw(t, "v")}
+		case k <= 29:
+			return Op{K: OpRemRange, Key: key.Draw(t, "key"), N: cnt(keys).Draw(t, "n"), Rev: rapid.Bool().Draw(t, "rev")}
+		case k <= 31:
+			return Op{K: OpIters, N: cnt(maxIt).Draw(t, "n")}
+		case k <= 32:
+			return Op{K: OpAdvAll, N: cnt(keys).Draw(t, "n")}
+		case k <= 34:
+			return Op{K: OpNextN, I: slot.Draw(t, "i"), N: cnt(keys).Draw(t, "n")}
 		default:
-			return Op{K: OpClose, I: rapid.IntRange(0, maxIt-1).Draw(t, "i")}
+			return Op{K: OpCloseAll, Rev: rapid.Bool().Draw(t, "rev")}
 		}
 	})
 	// rapid's SliceOf produces about 5 elements on average whatever the upper bound is; nesting the
@@ -170,6 +230,7 @@ func genCase(t *rapid.T) Case {
 }
 
 func TestC10Rapid(t *testing.T) {
+	running(propC10, "TestC10Rapid")
 	st := vstat.For(propC10)
 	rapid.Check(t, func(t *rapid.T) {
 		c := genCase(t)
@@ -181,6 +242,7 @@ func TestC10Rapid(t *testing.T) {
 
 func TestC11MapRapid(t *testing.T) {
 	hookOrSkip(t)
+	running(propC11, "TestC11MapRapid")
 	st := vstat.For(propC11)
 	rapid.Check(t, func(t *rapid.T) {
 		c := genCase(t)
@@ -206,6 +268,7 @@ func TestReplay(t *testing.T) {
 	if structural {
 		prop = propC11
 	}
+	running(prop, "TestReplay")
 	info, v := Run(c, structural)
 	if structural && info.NoHook {
 		t.Fatalf("%s is a C11 case but (*iterable.Map).VerifWalk is not compiled in: cannot replay it", p)
